@@ -523,7 +523,7 @@ func (viso *VirtualISO) makeVolumeDescriptors(volumeName string) {
 		},
 		Primary: &primaryVolumeDescriptorBody{
 			SystemIdentifier:              mangleStrA(runtime.GOOS, false),
-			VolumeIdentifier:              mangleStrD(volumeName, false),
+			VolumeIdentifier:              truncateStrD(mangleStrD(volumeName, false), volumeIdentifierSize),
 			VolumeSpaceSize:               viso.volumeSizeSectors,
 			VolumeSetSize:                 1,
 			VolumeSequenceNumber:          1,
@@ -532,7 +532,7 @@ func (viso *VirtualISO) makeVolumeDescriptors(volumeName string) {
 			TypeLPathTableLoc:             pathTableLLBA,
 			TypeMPathTableLoc:             pathTableMLBA,
 			ApplicationIdentifier:         "ps3netsrv",
-			VolumeSetIdentifier:           mangleStrD(volumeName, false),
+			VolumeSetIdentifier:           truncateStrD(mangleStrD(volumeName, false), volumeSetIdentifierSize),
 			VolumeCreationDateAndTime:     volumeDescriptorTimestampFromTime(now),
 			VolumeModificationDateAndTime: volumeDescriptorTimestampFromTime(now),
 			FileStructureVersion:          1,
@@ -548,7 +548,7 @@ func (viso *VirtualISO) makeVolumeDescriptors(volumeName string) {
 		},
 		Primary: &primaryVolumeDescriptorBody{
 			SystemIdentifier:              mangleStrA(runtime.GOOS, true),
-			VolumeIdentifier:              mangleStrD(volumeName, true),
+			VolumeIdentifier:              truncateStrD(mangleStrD(volumeName, true), volumeIdentifierSize),
 			VolumeSpaceSize:               viso.volumeSizeSectors,
 			EscapeSequences:               "%/@",
 			VolumeSetSize:                 1,
@@ -558,7 +558,7 @@ func (viso *VirtualISO) makeVolumeDescriptors(volumeName string) {
 			TypeLPathTableLoc:             pathTableJolietLLBA,
 			TypeMPathTableLoc:             pathTableJolietMLBA,
 			ApplicationIdentifier:         "ps3netsrv",
-			VolumeSetIdentifier:           mangleStrD(volumeName, true),
+			VolumeSetIdentifier:           truncateStrD(mangleStrD(volumeName, true), volumeSetIdentifierSize),
 			VolumeCreationDateAndTime:     volumeDescriptorTimestampFromTime(now),
 			VolumeModificationDateAndTime: volumeDescriptorTimestampFromTime(now),
 			FileStructureVersion:          1,
